@@ -2,10 +2,14 @@
 # usage: trymut.sh <patch.diff> <property> [extra hclverif check args]
 # Applies a patch to a scratch copy of /repo (outside /repo and /verif), runs the
 # check against it, removes the copy. Exit status is the check's.
+# SELFTEST_SNAP=<dir> (set by selftest.sh): use the snapshot <dir>/repo and <dir>/verif
+# instead of the live /repo and /verif, so that work in progress does not disturb a long run.
 set -u
 patch="$(realpath "$1")"; prop="$2"; shift 2
+src=/repo; verif=/verif
+if [ -n "${SELFTEST_SNAP:-}" ]; then src="$SELFTEST_SNAP/repo"; verif="$SELFTEST_SNAP/verif"; fi
 d=$(mktemp -d /tmp/hclmut.XXXXXX)
 trap 'rm -rf "$d"' EXIT
-rsync -a --exclude .git /repo/ "$d/"
+rsync -a --exclude .git "$src/" "$d/"
 ( cd "$d" && patch -p1 -s < "$patch" ) || { echo "patch failed"; exit 3; }
-/verif/bin/hclverif check "$prop" --repo "$d" --no-evidence "$@"
+"$verif/bin/hclverif" check "$prop" --repo "$d" --verif "$verif" --no-evidence "$@"
